@@ -66,6 +66,11 @@ def render(recipe):
         emit(fidx, 'G_STR = "glob%d"' % fidx)
         emit(fidx, 'def g_helper(x):')
         emit(fidx, '    return x')
+        emit(fidx, 'class KBase:')
+        emit(fidx, '    def __init__(self, seed):')
+        emit(fidx, '        self.base_seed = seed')
+        emit(fidx, '    def describe(self):')
+        emit(fidx, '        return "base-%s" % self.base_seed')
 
     sid_counter = [0]
 
@@ -149,14 +154,17 @@ def render(recipe):
         fidx = fn['file']
         params = ['n'] + ['p%d' % i for i in range(1, fn['nparams'])]
         if fn['kind'] == 'method':
-            emit(fidx, 'class K_%s:' % fn['name'])
+            emit(fidx, 'class K_%s(KBase):' % fn['name'])
             emit(fidx, '    def __init__(self, seed):')
+            emit(fidx, '        super().__init__(seed)')
             emit(fidx, '        self.seed = seed')
             emit(fidx, '        self._prot = [seed, seed]')
             emit(fidx, '        self.__priv = "s%d" % seed')
             line = emit(fidx, '    def %s(self, %s):' % (fn['name'], ', '.join(params)))
             r.func_lines[(fidx, fn['name'])] = line
+            emit(fidx, '        sup = super().describe()')       # zero-arg super(): the frame carries a __class__ cell
             render_body(fidx, fn['name'], fn['body'], 8, fi)
+            emit(fidx, '        mark(super().describe())')
             qual = 'K_%s.%s' % (fn['name'], fn['name'])
         else:
             line = emit(fidx, 'def %s(%s):' % (fn['name'], ', '.join(params)))
@@ -168,6 +176,8 @@ def render(recipe):
             qual = fn['name']
         r.func_info.append({'name': fn['name'], 'file': fidx, 'kind': fn['kind'], 'path': files[fidx]['path'],
                             'qual': qual, 'def_line': line})
+    entry = funcs[0]
+    emit(0, 'RESULT = %s(%s)' % (entry['name'], ', '.join(['2'] + ['1'] * (entry['nparams'] - 1))))
     for fidx, f in enumerate(files):
         r.sources[f['path']] = '\n'.join(per_file_lines[fidx]) + '\n'
     return r
@@ -286,14 +296,14 @@ def run_program(recipe, rendered, tracer=None, values=None, register_sources=Tru
         threading.settrace(tracer)
         sys.settrace(tracer)
         try:
-            for m, code in zip(mods, codes):
+            # file 0 last: its last statement calls the entry function from module level
+            for m, code in list(zip(mods, codes))[1:] + list(zip(mods, codes))[:1]:
                 exec(code, m.__dict__)
-            fn = getattr(mods[entry['file']], entry['name'])
-            args = [2] + [1] * (entry['nparams'] - 1)
-            v = fn(*args)
-            res.result = ['ok', canon_obs(v)]
+            res.result = ['ok', canon_obs(mods[0].RESULT)]
         except BaseException as e:      # noqa
             res.exc = describe_exc(e, res)
+        # the module namespaces are part of the program's final data
+        res.log.append(['module-dunders', [sorted(k for k in m.__dict__ if k.startswith('__')) for m in mods]])
         res.trace_after['main'] = sys.gettrace()
         sys.settrace(None)              # the thread's own teardown is harness code
 
